@@ -213,7 +213,7 @@ def run(tier, replay=None):
         bsrcs = [("skip", b"proc main() is skip\n"), ("hello", open(os.path.join(vlib.REPO, "tests/x/hello_putval.x"), "rb").read())]
         if tier != "quick":
             bsrcs += [(os.path.basename(f), open(f, "rb").read()) for f in corpus.repo_sources_x() if not f.endswith("xhexb.x")]
-        boots = {}
+        boots = {}; products = []
         for tag, src in bsrcs:
             open(os.path.join(bwd, "in.dat"), "wb").write(src)
             prods = {}
@@ -224,20 +224,43 @@ def run(tier, replay=None):
                 history.append({'key': "boot:" + tag, 'cfg': who, 'obs': "%d:%s:%s" % (p.returncode, hashlib.sha256(o).hexdigest()[:16], rest)})
                 prods[who] = open(os.path.join(bwd, "simout2"), "rb").read() if os.path.exists(os.path.join(bwd, "simout2")) else b""
             boots[tag] = len(prods["hexsim-exe"])
-            # the compiler's product, when it is a binary, on both executables
             if prods["hexsim-exe"] and prods["hexsim-exe"] == prods["hextb-exe"]:
-                pb = os.path.join(bwd, "prod.bin"); open(pb, "wb").write(prods["hexsim-exe"])
-                open(os.path.join(bwd, "in.dat"), "wb").write(b"ab")
-                for who, argv in (("hexsim-exe", [os.path.join(tdir, "hexsim"), pb]), ("hextb-exe", [os.path.join(tdir, "hextb"), pb, "+verilator+seed+%d" % (vlib.seed() + 11)])):
-                    try:
-                        p, rest = with_stdin(argv, wd=bwd)
-                    except subprocess.TimeoutExpired:
-                        continue
-                    nexe += 1
-                    o = p.stdout; mark = o.find(b"bytes to memory\n"); o = o[mark + len(b"bytes to memory\n"):] if who == "hextb-exe" and mark >= 0 else o
-                    # (binaries written by xhexb exit through `LDAC 0; OPR SVC` without storing an exit value: their status is a word they
-                    # never wrote - outside the precondition - so only what they print and consume is compared)
-                    history.append({'key': "bootprod:" + tag, 'cfg': who, 'obs': "%s:%s" % (o.hex()[:400], rest)})
+                products.append((tag, prods["hexsim-exe"]))
+        # the compiler's products on both executables - those inside the precondition, which the specification decides on the product's own
+        # hexsim run (SimV: it exits and never loads a word outside its image that it has not stored - the exit call's own value apart)
+        pcases = [{'id': tag, 'bin': pbin.hex(), 'input': b"ab".hex(), 'maxcycles': 0, 'trace': 0, 'dirty': -1, 'maxsteps': 400000} for tag, pbin in products]
+        eligible = set()
+        if pcases:
+            cf2 = os.path.join(d, "prod.cases"); of2 = os.path.join(d, "prod.out"); vlib.write_ndjson(cf2, pcases)
+            vlib.sh([sexe, cf2, of2, sd], check=True, timeout=3600)
+            precs = []
+            for (tag, pbin), r in zip(products, vlib.read_ndjson(of2)):
+                # (xhexb does not pad its last word: absent bytes are zero, BinFormat!Loaded)
+                hdr = struct.unpack('<I', pbin[:4])[0]; body = pbin[4:4 + 4 * hdr] + b"\0" * 4
+                ws = [[k, w] for k in range(hdr) for w in [struct.unpack('<i', body[4 * k:4 * k + 4])[0]] if w]
+                precs.append({'id': tag, 'img': ws, 'imgwords': hdr, 'input': [97, 98], 'traced': False,
+                              'obs': {'status': r['status'], 'ret': r['ret'], 'steps': r['steps'], 'rd': r['rd'], 'fout': r['fout'], 'out': [[0, x] for x in bytes.fromhex(r['text'])], 'calls': []}})
+            for rec, v in zip(precs, xlib.validate(precs, d, "c06prod", module="SimV", cfg="SimV.cfg")):
+                if v['v'] == 'ok' and v['st'] == 'exit' and not v.get('unwx'):
+                    eligible.add(rec['id'])
+                elif v['v'] == 'bad':
+                    chk.violation("hexsim:bootprod:%s" % v['why'], "hexsim run of the binary xhexb wrote for %s differs from HexISA: %s" % (rec['id'], v['why']), {"record.json": json.dumps(rec)})
+        for tag, pbin in products:
+            if tag not in eligible:
+                continue
+            pb = os.path.join(bwd, "prod.bin"); open(pb, "wb").write(pbin)
+            open(os.path.join(bwd, "in.dat"), "wb").write(b"ab")
+            for who, argv in (("hexsim-exe", [os.path.join(tdir, "hexsim"), pb]), ("hextb-exe", [os.path.join(tdir, "hextb"), pb, "+verilator+seed+%d" % (vlib.seed() + 11)])):
+                try:
+                    p, rest = with_stdin(argv, wd=bwd)
+                except subprocess.TimeoutExpired:
+                    continue
+                nexe += 1
+                o = p.stdout; mark = o.find(b"bytes to memory\n"); o = o[mark + len(b"bytes to memory\n"):] if who == "hextb-exe" and mark >= 0 else o
+                # (binaries written by xhexb exit through `LDAC 0; OPR SVC` without storing an exit value: their status is a word they
+                # never wrote, so only what they print and consume is compared)
+                history.append({'key': "bootprod:" + tag, 'cfg': who, 'obs': "%s:%s" % (o.hex()[:400], rest)})
+        chk.set("bootstrap_products_inside_precondition", sorted(eligible)); chk.set("bootstrap_products", len(products))
         chk.set("bootstrap_sources_compiled_by_xhexb_on_both", boots)
         history.append({'key': history[0]['key'], 'cfg': 'canary', 'obs': 'CANARY'})
         hf = os.path.join(d, "hist.ndjson"); vlib.write_ndjson(hf, history)
